@@ -1366,3 +1366,9 @@ M("C09", "align text: counting pass splits on blanks only", "src/decoder.c", """
 M("C09", "align text: one state too few", "src/decoder.c", """                         config_float(d->config, "lw"),
                          nwords + 1);""", """                         config_float(d->config, "lw"),
                          nwords);""", "TWIN.align-text")
+M("C17", "sendump: unterminated strings searched again (revert)", "src/ptm_mgau.c", """        if (s3f->ptr[n - 1] != '\\0') {
+            s3f->ptr += n;
+            continue;
+        }
+""", "", "SPAN")
+M("C17", "s3 header: magic compared without the length test (revert)", "src/s3file.c", """    if (s->ptr - line >= 3 && strncmp(line, "s3\\n", 3) == 0) {""", """    if (strncmp(line, "s3\\n", 3) == 0) {""", "SPAN")
